@@ -1,8 +1,10 @@
 package vm
 
 import (
+	"encoding/json"
 	"go/types"
 	"regexp"
+	"strings"
 )
 
 func registerMisc(vm *VM) {
@@ -35,6 +37,26 @@ func registerMisc(vm *VM) {
 			}
 		}
 		if !ok {
+			// JSON text (concrete characters and decimal renderings) decoded into a *string
+			if tgt, isI := a[1].(Iface); isI && tgt.T != nil {
+				if pt, isP := tgt.T.Underlying().(*types.Pointer); isP {
+					if bt, isB := pt.Elem().Underlying().(*types.Basic); isB && bt.Info()&types.IsString != 0 {
+						if txt, okT := vm.bytesAsText(a[0]); okT {
+							dec, err := vm.jsonDecodeString(txt)
+							if err != "" {
+								ep := vm.Pkgs["errors"]
+								if ep == nil {
+									vmErr("errors package not loaded")
+								}
+								cell := vm.newCell(Struct{err})
+								return Iface{T: typesPointer(ep.Type("errorString").Type()), V: cell}
+							}
+							vm.store(tgt.V.(*Value), dec)
+							return Iface{}
+						}
+					}
+				}
+			}
 			vmErr("json.Unmarshal of bytes that do not come from json.Marshal (%T)", a[0])
 		}
 		target, ok := a[1].(Iface)
@@ -106,4 +128,57 @@ func (vm *VM) hasMethod(t types.Type, name string) bool {
 		}
 	}
 	return false
+}
+
+// bytesAsText views a []byte value as a string value (concrete, SymStr or SymBytes).
+func (vm *VM) bytesAsText(v Value) (Value, bool) {
+	switch x := v.(type) {
+	case *SymBytes:
+		return x.S, true
+	case Slice:
+		return strFromBytes([]Value(x)), true
+	}
+	return nil, false
+}
+
+// jsonDecodeString decodes a JSON string literal whose text consists of concrete
+// characters and decimal atoms (digits pass through JSON unchanged): the atoms are
+// replaced by private-use placeholders, the text is decoded natively, and the
+// placeholders are put back. Returns a non-empty error text when the JSON is invalid.
+func (vm *VM) jsonDecodeString(txt Value) (Value, string) {
+	as := atomsOf(txt)
+	var sb strings.Builder
+	var decs []Atom
+	for _, a := range as {
+		switch a.Kind {
+		case aConc:
+			sb.WriteString(a.S)
+		case aDec:
+			sb.WriteRune(rune(0xE000 + len(decs)))
+			decs = append(decs, a)
+		default:
+			vmErr("json.Unmarshal of a text with symbolic bytes into a string is not modelled")
+		}
+	}
+	var out string
+	if err := json.Unmarshal([]byte(sb.String()), &out); err != nil {
+		return nil, err.Error()
+	}
+	var res []Atom
+	cur := ""
+	for _, r := range out {
+		if r >= 0xE000 && int(r-0xE000) < len(decs) {
+			if cur != "" {
+				res = append(res, Atom{Kind: aConc, S: cur})
+				cur = ""
+			}
+			res = append(res, decs[r-0xE000])
+			continue
+		}
+		cur += string(r)
+	}
+	if cur != "" {
+		res = append(res, Atom{Kind: aConc, S: cur})
+	}
+	return mkStr(res), ""
 }
